@@ -12,15 +12,30 @@ The observation is (escaping exception type and message, trace, summary of every
 """
 import contextlib
 import io
+import re
 import types
 import warnings
 
 
+_ADDR = re.compile(r"0x[0-9a-fA-F]{6,}")          # object addresses in default reprs
+
+
 def summ(x, depth=0):
+    try:
+        return _summ(x, depth)
+    except Timeout:
+        raise
+    except Exception as e:  # noqa: BLE001
+        return ("<unsummarisable>", type(x).__name__, type(e).__name__)
+
+
+def _summ(x, depth=0):
     if depth > 6:
         return "<deep>"
-    if x is None or isinstance(x, (bool, int, str, bytes)):
-        return x if not isinstance(x, (str, bytes)) else (type(x).__name__, x)
+    if isinstance(x, str):
+        return ("str", _ADDR.sub("0x?", x))
+    if x is None or isinstance(x, (bool, int, bytes)):
+        return x if not isinstance(x, bytes) else ("bytes", x)
     if isinstance(x, float):
         return ("float", repr(x))
     if isinstance(x, complex):
@@ -45,13 +60,17 @@ def summ(x, depth=0):
     if isinstance(x, (types.GeneratorType, types.CoroutineType, types.AsyncGeneratorType)):
         return ("<" + type(x).__name__ + ">",)
     if isinstance(x, Pt):
-        return ("Pt", summ(x.x, depth + 1), summ(x.y, depth + 1))
+        return ("Pt", tuple(sorted((k, summ(v, depth + 1)) for k, v in x.__dict__.items())))
     if type(x).__module__.startswith("hy."):
         return ("hy", repr(x))
     d = getattr(x, "__dict__", None)
     if isinstance(d, dict) and depth < 3:
         return ("object", type(x).__name__, tuple(sorted((k, summ(v, depth + 1)) for k, v in d.items() if not k.startswith("__"))))
     return ("<" + type(x).__name__ + ">",)
+
+
+class Timeout(BaseException):
+    """raised by the harness' alarm; never caught by a generated program (they catch Exception at most)"""
 
 
 class E1(Exception):
@@ -124,9 +143,11 @@ def observe(code, limit_trace=400):
         with contextlib.redirect_stdout(buf), warnings.catch_warnings():
             warnings.simplefilter("ignore")
             exec(code, ns)      # noqa: S102
+    except Timeout:
+        raise
     except BaseException as e:  # noqa: BLE001
         exc = (type(e).__name__, str(e)[:200])
-    final = tuple(sorted(((k, summ(v)) for k, v in ns.items() if k not in base and k != "__builtins__" and k != "hy"), key=lambda kv: kv[0]))
+    final = tuple(sorted(((k, summ(v)) for k, v in ns.items() if k not in base and k != "hy" and (not k.startswith("__") or k in ("__doc__", "__annotations__"))), key=lambda kv: kv[0]))
     return {"exception": exc, "trace": tuple(trace[:limit_trace]), "names": final, "stdout": buf.getvalue()[:2000]}
 
 
